@@ -432,6 +432,107 @@ func runC20(t *testing.T, c StructCase) (v *h.Violation, info h.Info) {
 			}
 		}
 	}
+	if c.ViaApply && len(failing) == 0 && tagged > 0 {
+		// (a) The same *Fields value is applied to ANOTHER store later (the first process's store is gone,
+		// the service has moved on): the fields hold what the store they were given now serves.
+		fs, err := setec.ParseFields(arg, c.Prefix)
+		if err != nil {
+			return h.V("harness", "ParseFields again: %v", err), info
+		}
+		if err := fs.Apply(context.Background(), st); err != nil {
+			return h.V("supported-shapes-accepted", "second Apply on the same store: %v", err), info
+		}
+		svc2 := fake.NewSvc()
+		svc2.Set("plain", 1, []byte("plain-value"))
+		for n, b := range served {
+			svc2.Set(n, 9, append([]byte("S2:"), b...))
+		}
+		st2, err := setec.NewStore(context.Background(), setec.StoreConfig{Client: svc2, Secrets: []string{"plain"}, AllowLookup: true, PollInterval: -1, Logf: nolog})
+		if err != nil {
+			return h.V("harness", "NewStore 2: %v", err), info
+		}
+		defer st2.Close()
+		// JSON and unmarshaler fields would reject the prefixed bytes: look at the raw kinds only
+		rawOnly := true
+		for _, f := range c.Fields {
+			if isTagged(f.Kind) && f.Kind != "bytes" && f.Kind != "string" && f.Kind != "secret" {
+				rawOnly = false
+			}
+		}
+		if rawOnly && !hasEmb {
+			if err := fs.Apply(context.Background(), st2); err != nil {
+				return h.V("supported-shapes-accepted", "Apply of the same Fields to a second store: %v", err), info
+			}
+			for i, f := range c.Fields {
+				want := append([]byte("S2:"), served[full(f.Tag)]...)
+				fv := el.Field(fieldIdx[i])
+				switch f.Kind {
+				case "bytes":
+					if !bytes.Equal(fv.Bytes(), want) {
+						return h.V("field-holds-current-value", "field %d ([]byte, tag %q) after applying the same Fields to a second store holds %q, that store serves %q", i, f.Tag, fv.Bytes(), want), info
+					}
+				case "string":
+					if fv.String() != string(want) {
+						return h.V("field-holds-current-value", "field %d (string, tag %q) after applying the same Fields to a second store holds %q, that store serves %q", i, f.Tag, fv.String(), want), info
+					}
+				case "secret":
+					if got := fv.Interface().(setec.Secret).Get(); !bytes.Equal(got, want) {
+						return h.V("field-holds-current-value", "field %d (Secret, tag %q) after applying the same Fields to a second store yields %q, that store serves %q", i, f.Tag, got, want), info
+					}
+				}
+			}
+			info.Class("same-fields-applied-to-a-second-store")
+		}
+		// (b) Apply under a context that has ended, on a store that already knows every secret but the
+		// first one: that field fails (its lookup cannot be made), the failure is reported, and every
+		// other field is filled all the same.
+		if rawOnly && !hasEmb && len(wantNames) >= 2 {
+			known := append([]string{"plain"}, wantNames[1:]...)
+			st3, err := setec.NewStore(context.Background(), setec.StoreConfig{Client: svc, Secrets: known, AllowLookup: true, PollInterval: -1, Logf: nolog})
+			if err != nil {
+				return h.V("harness", "NewStore 3: %v", err), info
+			}
+			defer st3.Close()
+			stillKnown := false
+			for _, n := range wantNames[1:] {
+				if n == wantNames[0] {
+					stillKnown = true // the first name is named again later: then nothing needs a lookup
+				}
+			}
+			fresh := reflect.New(sv.Elem().Type())
+			fs3, err := setec.ParseFields(fresh.Interface(), c.Prefix)
+			if err != nil {
+				return h.V("harness", "ParseFields 3: %v", err), info
+			}
+			cctx, ccancel := context.WithCancel(context.Background())
+			ccancel()
+			aerr := fs3.Apply(cctx, st3)
+			if !stillKnown && aerr == nil && svc.CountFor(wantNames[0]) == 0 {
+				// (a lookup that succeeds although the context has ended is the store's business)
+			}
+			for i, f := range c.Fields {
+				if !isTagged(f.Kind) || full(f.Tag) == wantNames[0] {
+					continue
+				}
+				want := served[full(f.Tag)]
+				fv := fresh.Elem().Field(fieldIdx[i])
+				ok := true
+				switch f.Kind {
+				case "bytes":
+					ok = bytes.Equal(fv.Bytes(), want)
+				case "string":
+					ok = fv.String() == string(want)
+				case "secret":
+					sec := fv.Interface().(setec.Secret)
+					ok = sec != nil && bytes.Equal(sec.Get(), want)
+				}
+				if !ok {
+					return h.V("one-failure-does-not-stop-the-others", "Apply under an ended context on a store that knows every secret except %q: field %d (%s, tag %q) was not filled (Apply returned %v)", wantNames[0], i, f.Kind, f.Tag, aerr), info
+				}
+			}
+			info.Class("apply-under-an-ended-context")
+		}
+	}
 	nk := 0
 	for k := range kinds {
 		if isTagged(k) {
@@ -447,7 +548,9 @@ func runC20(t *testing.T, c StructCase) (v *h.Violation, info h.Info) {
 	return nil, info
 }
 
-var c20Tags = []string{"alpha", "beta", "gamma", "db/password", "k8s/token", "x"}
+var c20Tags = []string{"alpha", "beta", "gamma", "db/password", "k8s/token", "x",
+	// names that merely END like the json verb - the verb is what follows the comma, nothing else
+	"service-account.json", "json", "motd-json"}
 
 func genStructCase(rt *rapid.T) StructCase {
 	c := StructCase{
@@ -507,7 +610,7 @@ func genStructCase(rt *rapid.T) StructCase {
 
 var c20 = &h.Campaign[StructCase]{
 	Prop: "C20", Sub: "structs",
-	Rule: "rapid: struct types built at run time with reflect.StructOf: 1-8 exported fields in random order from {[]byte, string, setec.Secret, value and pointer BinaryUnmarshaler, ',json' struct/map/int, untagged int/[]byte/string with sentinels, an embedded struct with two tagged fields and an untagged one, unsupported tagged int/float/chan, an empty tag name}, clean prefixes, random/empty/rejected/invalid-JSON secret bytes, JSON values followed by trailing data, text ending in line terminators, untagged nil pointers of an unmarshaler type; populated through NewStore(Structs) or ParseFields+Apply; also non-pointer / non-struct arguments and structs without tags; populated []byte fields are overwritten and the store re-read; non-trivial = >= 3 tagged fields of >= 3 kinds plus an untagged one, or a rejected shape, or a failing field with the others filled; distinct by scenario",
+	Rule: "rapid: struct types built at run time with reflect.StructOf: 1-8 exported fields in random order from {[]byte, string, setec.Secret, value and pointer BinaryUnmarshaler, ',json' struct/map/int, untagged int/[]byte/string with sentinels, an embedded struct with two tagged fields and an untagged one, unsupported tagged int/float/chan, an empty tag name}, clean prefixes, random/empty/rejected/invalid-JSON secret bytes, JSON values followed by trailing data, text ending in line terminators, untagged nil pointers of an unmarshaler type; populated through NewStore(Structs) or ParseFields+Apply (then the same Fields applied to a second store that serves other bytes, and a fresh struct applied under an ended context on a store that lacks only the first secret); also non-pointer / non-struct arguments and structs without tags; populated []byte fields are overwritten and the store re-read; non-trivial = >= 3 tagged fields of >= 3 kinds plus an untagged one, or a rejected shape, or a failing field with the others filled; distinct by scenario",
 	Quick: 5000, Thorough: 5000000,
 	Gen:   genStructCase,
 	Run:   runC20,
